@@ -18,7 +18,9 @@
 (* instead of creating one per request; "SHAREDSRC" Recovery keeps the     *)
 (* source file it last read (for the stack listing) in the middleware      *)
 (* closure instead of in the call; "SHAREDPARAMS" the static shortcut hands *)
-(* every request of a static route ONE Params map built at registration.   *)
+(* every request of a static route ONE Params map built at registration;   *)
+(* "SHAREDLOGGER" the Logger middleware derives its prefixed logger from    *)
+(* the logger injected into the FIRST request and keeps it.                *)
 (*   Rec      Recovery formats the panic of a "panic" route: stack frames  *)
 (*            with source lines from a per-call file cache, then answers   *)
 (***************************************************************************)
@@ -27,9 +29,10 @@ CONSTANTS NProc, Dev, EmitCases
 Procs == 1..NProc
 Vals == {"v1", "v2"}
 VARIABLES req, pc, params, hl, scope, out, arr, cache, seen, W, sched,
+          slog,     \* whose request-scoped logger the Logger middleware writes through when it derives its logger only once (deviation SHAREDLOGGER; 0 = not yet derived)
           spar,     \* the scratch entry of the one Params map shared by the requests of the static route (deviation SHAREDPARAMS)
           rend      \* which request's writer the Render object seen by request p writes to (0 = the one shared cell)
-vars == <<req, pc, params, hl, scope, out, arr, cache, seen, W, sched, rend, spar>>
+vars == <<req, pc, params, hl, scope, out, arr, cache, seen, W, sched, rend, spar, slog>>
 
 ReqU == { [id |-> p, route |-> k, val |-> v] : p \in Procs, k \in {"static", "param", "render", "panic"}, v \in Vals }
 Init == /\ req \in { f \in [Procs -> ReqU] : \A p \in Procs : f[p].id = p }
@@ -37,35 +40,35 @@ Init == /\ req \in { f \in [Procs -> ReqU] : \A p \in Procs : f[p].id = p }
         /\ hl = [p \in Procs |-> <<>>] /\ scope = [p \in Procs |-> {}] /\ out = [p \in Procs |-> <<>>]
         /\ arr = <<"mw1", "free">>                  \* f.handlers with one spare slot
         /\ cache = [k \in RouteKinds |-> "unset"] /\ seen = [p \in Procs |-> FALSE]
-        /\ W = {} /\ sched = <<>> /\ rend = [p \in 0..NProc |-> p] /\ spar = 0
+        /\ W = {} /\ sched = <<>> /\ rend = [p \in 0..NProc |-> p] /\ spar = 0 /\ slog = 0
 
 Lookup(p) == /\ pc[p] = "lookup"
              /\ params' = [params EXCEPT ![p] = [route |-> req[p].route, val |-> req[p].val]]
              /\ pc' = [pc EXCEPT ![p] = "render"]
              /\ sched' = Append(sched, p)
-             /\ UNCHANGED <<req, hl, scope, out, arr, cache, seen, W, rend, spar>>
+             /\ UNCHANGED <<req, hl, scope, out, arr, cache, seen, W, rend, spar, slog>>
 \* sync.Once: test and set in one atomic step; only the winner writes
 RenderOnce(p) == /\ pc[p] = "render" /\ "NOONCE" \notin Dev
                  /\ cache' = [cache EXCEPT ![req[p].route] = "set"]
                  /\ pc' = [pc EXCEPT ![p] = "ctx"]
-                 /\ UNCHANGED <<req, params, hl, scope, out, arr, seen, W, sched, rend, spar>>
+                 /\ UNCHANGED <<req, params, hl, scope, out, arr, seen, W, sched, rend, spar, slog>>
 \* negative control: `if s.str == "" { s.str = render() }`
 RenderCheck(p) == /\ pc[p] = "render" /\ "NOONCE" \in Dev
                   /\ seen' = [seen EXCEPT ![p] = cache[req[p].route] = "set"]
                   /\ pc' = [pc EXCEPT ![p] = "renderset"]
-                  /\ UNCHANGED <<req, params, hl, scope, out, arr, cache, W, sched, rend, spar>>
+                  /\ UNCHANGED <<req, params, hl, scope, out, arr, cache, W, sched, rend, spar, slog>>
 RenderSet(p) == /\ pc[p] = "renderset"
                 /\ IF seen[p] THEN UNCHANGED <<cache, W>>
                    ELSE cache' = [cache EXCEPT ![req[p].route] = "set"] /\ W' = W \cup {<<req[p].route, p>>}
                 /\ pc' = [pc EXCEPT ![p] = "ctx"]
-                /\ UNCHANGED <<req, params, hl, scope, out, arr, seen, sched, rend, spar>>
+                /\ UNCHANGED <<req, params, hl, scope, out, arr, seen, sched, rend, spar, slog>>
 Ctx(p) == /\ pc[p] = "ctx"
           /\ IF "SHAREDSLICE" \in Dev
              THEN /\ arr' = [arr EXCEPT ![2] = req[p].route]         \* append(f.handlers, ...) reuses the spare slot
                   /\ hl' = [hl EXCEPT ![p] = <<"alias">>] /\ W' = W \cup {<<"arr", p>>}
              ELSE /\ hl' = [hl EXCEPT ![p] = <<"mw1", req[p].route>>] /\ UNCHANGED <<arr, W>>
           /\ pc' = [pc EXCEPT ![p] = "h1"]
-          /\ UNCHANGED <<req, params, scope, out, cache, seen, sched, rend, spar>>
+          /\ UNCHANGED <<req, params, scope, out, cache, seen, sched, rend, spar, slog>>
 \* middleware: c.Map(tag), then Renderer: a FRESH render object bound to this request's writer
 H1(p) == /\ pc[p] = "h1"
          /\ scope' = [scope EXCEPT ![p] = @ \cup {p}]
@@ -73,7 +76,9 @@ H1(p) == /\ pc[p] = "h1"
                 sr == "SHAREDRENDER" \in Dev                               \* r.responseWriter = c.ResponseWriter() on the one object
             IN /\ rend' = IF sr THEN [rend EXCEPT ![0] = p] ELSE rend
                /\ spar' = IF sp THEN p ELSE spar
+               /\ slog' = IF "SHAREDLOGGER" \in Dev /\ slog = 0 THEN p ELSE slog    \* once.Do(derive from THIS request's logger)
                /\ W' = W \cup (IF sr THEN {<<"rend", p>>} ELSE {}) \cup (IF sp THEN {<<"params", p>>} ELSE {})
+                         \cup (IF "SHAREDLOGGER" \in Dev /\ slog = 0 THEN {<<"logger", p>>} ELSE {})
          /\ pc' = [pc EXCEPT ![p] = "h2"] /\ sched' = Append(sched, p)
          /\ UNCHANGED <<req, params, hl, out, arr, cache, seen>>
 H2(p) == /\ pc[p] = "h2" /\ req[p].route # "panic"
@@ -84,20 +89,23 @@ H2(p) == /\ pc[p] = "h2" /\ req[p].route # "panic"
                                           \* a "render" route writes through the Render object it was given
                                           wid |-> IF req[p].route = "render" /\ "SHAREDRENDER" \in Dev THEN rend[0] ELSE p,
                                           \* the scratch entry the middleware of THIS request left in its Params map
-                                          scr |-> IF "SHAREDPARAMS" \in Dev /\ req[p].route = "static" THEN spar ELSE p]]
+                                          scr |-> IF "SHAREDPARAMS" \in Dev /\ req[p].route = "static" THEN spar ELSE p,
+                                          \* the Logger middleware logged this request's two lines through this request's own logger
+                                          log |-> IF "SHAREDLOGGER" \in Dev /\ slog # p THEN 0 ELSE 20]]
          /\ pc' = [pc EXCEPT ![p] = "done"] /\ sched' = Append(sched, p)
-         /\ UNCHANGED <<req, params, hl, scope, arr, cache, seen, W, rend, spar>>
+         /\ UNCHANGED <<req, params, hl, scope, arr, cache, seen, W, rend, spar, slog>>
 \* the route handler panics; the deferred function of Recovery (an earlier middleware of the same request) formats the
 \* stack - reading source files through a cache of the last file - and answers on this request's writer
 H2Panic(p) == /\ pc[p] = "h2" /\ req[p].route = "panic"
               /\ pc' = [pc EXCEPT ![p] = "rec"] /\ sched' = Append(sched, p)
-              /\ UNCHANGED <<req, params, hl, scope, out, arr, cache, seen, W, rend, spar>>
+              /\ UNCHANGED <<req, params, hl, scope, out, arr, cache, seen, W, rend, spar, slog>>
 Rec(p) == /\ pc[p] = "rec"
           /\ W' = IF "SHAREDSRC" \in Dev THEN W \cup {<<"src", p>>} ELSE W
           /\ LET tg == CHOOSE t \in scope[p] : TRUE
-             IN out' = [out EXCEPT ![p] = [h |-> "panic", val |-> params[p].val, tag |-> tg, url |-> "/p/" \o params[p].val, wid |-> p, scr |-> p]]
+             IN out' = [out EXCEPT ![p] = [h |-> "panic", val |-> params[p].val, tag |-> tg, url |-> "/p/" \o params[p].val, wid |-> p, scr |-> p,
+                                           log |-> IF "SHAREDLOGGER" \in Dev /\ slog # p THEN 0 ELSE 20]]
           /\ pc' = [pc EXCEPT ![p] = "done"]
-          /\ UNCHANGED <<req, params, hl, scope, arr, cache, seen, sched, rend, spar>>
+          /\ UNCHANGED <<req, params, hl, scope, arr, cache, seen, sched, rend, spar, slog>>
 Next == \E p \in Procs : H2Panic(p) \/ Rec(p) \/ Lookup(p) \/ RenderOnce(p) \/ RenderCheck(p) \/ RenderSet(p) \/ Ctx(p) \/ H1(p) \/ H2(p)
 Spec == Init /\ [][Next]_vars
 
@@ -117,5 +125,5 @@ NoRace == \A a, b \in W : a[1] = b[1] => a[2] = b[2]
 ReadOnlyAfterSetup == W = {} /\ arr = <<"mw1", "free">>
 AllDone == \A p \in Procs : pc[p] = "done"
 EmitCase == (EmitCases /\ AllDone) => PrintT("CASE " \o ToJson([reqs |-> [p \in Procs |-> req[p]], sched |-> sched]))
-View == <<req, pc, params, hl, scope, out, arr, cache, seen, W, rend, spar>>
+View == <<req, pc, params, hl, scope, out, arr, cache, seen, W, rend, spar, slog>>
 ====
